@@ -79,6 +79,10 @@ def compare(ctx, infr, inam, edges, mode, case, tag):
     H, H1 = brute(infr, inam, edges, mode) if infr.size <= 4000 else brute_fast(infr, inam, edges, mode)
     tot = np.abs(inam ** 2 if mode == 'energy' else inam).sum() or 1.0
     tol = 1e-12 * tot
+    # per-cell tolerance: what lands in a cell is judged against the size of that cell's own content, so that a small
+    # contribution next to a huge one elsewhere in the array cannot hide
+    Ha, H1a = (brute(infr, np.abs(inam), edges, mode) if infr.size <= 4000 else brute_fast(infr, np.abs(inam), edges, mode))
+    tolH, tolH1 = 1e-12 * Ha + 1e-300, 1e-12 * H1a + 1e-300
     infr64 = np.asarray(infr, dtype=float)
     inr = (infr64 >= edges[0]) & (infr64 < edges[-1])
     onedge = np.isin(infr64, edges)
@@ -96,7 +100,7 @@ def compare(ctx, infr, inam, edges, mode, case, tag):
     if dense.shape != H.shape:
         ctx.violation('hht-shape', 'hilberthuang returned shape %s, expected [bins x time] = %s' % (dense.shape, H.shape), case)
         return
-    if np.abs(dense - H).max() > tol:
+    if np.any(np.abs(dense - H) > tolH):
         below = bool((infr < edges[0]).any())
         b, t = np.unravel_index(np.argmax(np.abs(dense - H)), H.shape)
         key = 'hht-dense'
@@ -111,13 +115,13 @@ def compare(ctx, infr, inam, edges, mode, case, tag):
                                                         np.round(infr.reshape(-1), 4).tolist()[:8], mode), case)
         return
     spd = sp.toarray() if hasattr(sp, 'toarray') else np.asarray(sp)
-    if spd.shape != H.shape or np.abs(spd - H).max() > tol:
+    if spd.shape != H.shape or np.any(np.abs(spd - H) > tolH):
         ctx.violation('hht-sparse', 'sparse spectrum differs from the per-sample histogram / dense form', case)
         return
     if one.shape != H1.shape:
         ctx.violation('hht1d-shape', 'hilberthuang_1d returned shape %s, expected [bins x imfs] = %s' % (one.shape, H1.shape), case)
         return
-    if np.abs(one - H1).max() > tol:
+    if np.any(np.abs(one - H1) > tolH1):
         key = 'hht1d' + ('-edge-assignment' if onedge.any() else '')
         ctx.violation(key, 'hilberthuang_1d differs from the per-IMF marginal histogram (edges %s, freqs %s)'
                       % (np.round(edges, 4).tolist(), np.round(infr.reshape(-1), 4).tolist()[:8]), case)
@@ -170,6 +174,11 @@ def run_shard(ctx):
         inam = rng.uniform(.1, 3, (T, M))
         if rng.random() < .3:
             inam[rng.integers(0, T), :] = 0.0
+        if rng.random() < .15:
+            inam = inam * 10.0 ** rng.integers(-9, 10, (T, M))      # amplitudes over many decades within one array
+            ctx.count('wide_dynamic_range_cases')
+        if T > 100000:
+            infr[T // 3:2 * T // 3] = hi + 1.0                       # a long stretch with nothing in range
         mode = gens.pick(rng, ['energy', 'amplitude'])
         # "all frequency/amplitude arrays": memory layout and frequency dtype are the caller's business
         fr = rng.random()
